@@ -22,7 +22,7 @@ ASSUMPTIONS = ["copy independence is structural in a pure model (a copied value 
 
 def run(ctx):
     classes = pat_props.focus_classes()
-    n_cases = ctx.scale(2500, 60000)
+    n_cases = ctx.scale(2500, 250000)
     scripts, meta = [], {}
     r = ctx.rng
     for i in range(n_cases):
